@@ -26,6 +26,8 @@ structure Cfg (K : Type) where
   miniter : Option Nat
   maxiter : Option Nat
   raiseNPD : Bool
+  normTwo : Bool              -- `norm_ord == 2` (Euclidean norm, compared through squares); otherwise the norm `nrm`
+  resnormSqrt : Option K      -- `resnorm = min(0.5, sqrt(m)) * m` as `_newton_cg` passes it (`m` = gradient magnitude)
   tiny : K
   eps : K
   nreset : Nat
@@ -96,14 +98,27 @@ def maxiterEff (c : Cfg K) : Nat :=
   | none => max (min 200 (maxiterFallback c)) (miniterEff c)
 
 /-- `resnorm is not None` after `if absdelta is None and resnorm is None: resnorm = max(tol*‖j‖, atol)` -/
-def resActive (c : Cfg K) : Bool := c.resnorm.isSome || c.absdelta.isNone
+def resActive (c : Cfg K) : Bool := c.resnorm.isSome || c.resnormSqrt.isSome || c.absdelta.isNone
 
-/-- `norm(r) < resnorm` for `norm_ord = 2`, through squares; `jj = ⟨j,j⟩`, `g = ⟨r,r⟩ ≥ 0` -/
-def normLt (c : Cfg K) (jj g : K) : Bool :=
-  match c.resnorm with
-  | some rho => decide (0 < rho) && decide (g < rho * rho)
-  | none => (decide (0 < c.tol) && decide (g < c.tol * c.tol * jj))
-            || (decide (0 < c.atol) && decide (g < c.atol * c.atol))
+/-- `norm(r, ord=norm_ord) < resnorm`, sqrt-free.
+    * `norm_ord = 2`: through squares (`γ = ⟨r,r⟩`, `‖j‖² = ⟨j,j⟩`);
+    * other orders (1, ∞): with the norm `nrm` (exact on rationals), assumed non-negative;
+    * `resnorm` explicit, or `min(1/2, √m)·m` (`resnormSqrt = some m`: `ρ > 0 ⇔ m > 0`, `ρ² = m²·min(1/4, m)`),
+      or the fallback `max(tol·‖j‖, atol)`. -/
+def normLt (c : Cfg K) (ip : V → V → K) (nrm : V → K) (j r : V) : Bool :=
+  if c.normTwo then
+    let g := ip r r
+    match c.resnorm, c.resnormSqrt with
+    | some rho, _ => decide (0 < rho) && decide (g < rho * rho)
+    | none, some m => decide (0 < m) && decide ((1 + 1) * (1 + 1) * g < m * m) && decide (g < m * m * m)
+    | none, none => (decide (0 < c.tol) && decide (g < c.tol * c.tol * ip j j))
+                    || (decide (0 < c.atol) && decide (g < c.atol * c.atol))
+  else
+    let n := nrm r
+    match c.resnorm, c.resnormSqrt with
+    | some rho, _ => decide (n < rho)
+    | none, some m => decide (0 < m) && decide ((1 + 1) * n < m) && decide (n * n < m * m * m)
+    | none, none => decide (n < c.tol * nrm j) || decide (n < c.atol)
 
 def half : K := 1 / (1 + 1)
 def absK (a : K) : K := if a < 0 then -a else a
@@ -125,7 +140,7 @@ inductive StepOut (K V : Type) where
   | next (s : St K V)                    -- fall through to the next iteration
 
 /-- body of the `for i in range(1, maxiter+1)` loop of `_cg` at iteration `i` -/
-def eagerStep (c : Cfg K) (ip : V → V → K) (mat : V → V) (j : V) (i : Nat) (s : St K V) : StepOut K V :=
+def eagerStep (c : Cfg K) (ip : V → V → K) (nrm : V → K) (mat : V → V) (j : V) (i : Nat) (s : St K V) : StepOut K V :=
   let q := mat s.d
   let curv := ip s.d q
   if curv = 0 then
@@ -141,7 +156,7 @@ def eagerStep (c : Cfg K) (ip : V → V → K) (mat : V → V) (j : V) (i : Nat)
     let r := if i % c.nreset = 0 then mat pos - j else s.r - alpha • q
     let gamma := ip r r
     if 0 ≤ gamma ∧ gamma ≤ c.tiny then .stop (.ok ⟨pos, 0, i, .gammaTiny, r, gamma, 0⟩)
-    else if resActive c = true ∧ normLt c (ip j j) gamma = true ∧ miniterEff c ≤ i then
+    else if resActive c = true ∧ normLt c ip nrm j r = true ∧ miniterEff c ≤ i then
       .stop (.ok ⟨pos, 0, i, .resnorm, r, gamma, 0⟩)
     else
       let newE := energyOf ip j r pos
@@ -157,19 +172,19 @@ def eagerStep (c : Cfg K) (ip : V → V → K) (mat : V → V) (j : V) (i : Nat)
 
 /-- the `for i in range(1, maxiter+1)` loop of `_cg`; `fuel` = iterations left, `i` = current iteration;
     falling out of the loop leaves `info = -1`, which becomes `info = i` (the last value of the loop variable) -/
-def eagerLoop (c : Cfg K) (ip : V → V → K) (mat : V → V) (j : V) :
+def eagerLoop (c : Cfg K) (ip : V → V → K) (nrm : V → K) (mat : V → V) (j : V) :
     Nat → Nat → St K V → Except Err (Res K V)
   | 0, i, s => .ok ⟨s.pos, ((i - 1 : Nat) : Int), i - 1, .maxiter, s.r, s.gamma, 0⟩
   | fuel + 1, i, s =>
-    match eagerStep c ip mat j i s with
+    match eagerStep c ip nrm mat j i s with
     | .stop r => r
-    | .next s' => eagerLoop c ip mat j fuel (i + 1) s'
+    | .next s' => eagerLoop c ip nrm mat j fuel (i + 1) s'
 
 /-- `_cg` -/
-def cgEager (c : Cfg K) (ip : V → V → K) (mat : V → V) (j : V) (x0 : Option V) : Except Err (Res K V) :=
+def cgEager (c : Cfg K) (ip : V → V → K) (nrm : V → K) (mat : V → V) (j : V) (x0 : Option V) : Except Err (Res K V) :=
   let s := init ip mat j x0
   if s.gamma = 0 then .ok ⟨s.pos, 0, 0, .startZero, s.r, s.gamma, 0⟩
-  else eagerLoop c ip mat j (maxiterEff c) 1 s
+  else eagerLoop c ip nrm mat j (maxiterEff c) 1 s
 
 /-- first `info` update of `cg_single_step`: `info = where(curv <= 0, where(_raise_nonposdef, -1, 0), info)` -/
 def staticInfo1 (raise nonpos : Bool) (info : Int) : Int :=
@@ -192,7 +207,7 @@ def staticInfo (raise : Bool) (i miniter maxiter : Nat) (info1 : Int) (tinyB res
   if decide (maxiter ≤ i) && decide (info5 < -1) then (i : Int) else info5
 
 /-- `cg_single_step` of `_static_cg` -/
-def staticStep (c : Cfg K) (ip : V → V → K) (mat : V → V) (j : V) (v : SSt K V) : SSt K V :=
+def staticStep (c : Cfg K) (ip : V → V → K) (nrm : V → K) (mat : V → V) (j : V) (v : SSt K V) : SSt K V :=
   let i := v.it + 1
   let q := mat v.d
   let curv := ip v.d q
@@ -207,16 +222,16 @@ def staticStep (c : Cfg K) (ip : V → V → K) (mat : V → V) (j : V) (v : SSt
   let energy := energyOf ip j r pos
   let ediff := v.energy - energy
   let info := staticInfo c.raiseNPD i (miniterEff c) (maxiterEff c) info1
-    (decide (0 ≤ gamma) && decide (gamma ≤ c.tiny)) (resActive c) (normLt c (ip j j) gamma)
+    (decide (0 ≤ gamma) && decide (gamma ≤ c.tiny)) (resActive c) (normLt c ip nrm j r)
     (decide (ediff < -(c.eps * absK energy)))
     (match c.absdelta with | some a => decide (ediff < a) | none => false)
   let d := max0 (gamma / v.gamma) • v.d + r
   { info := info, pos := pos, r := r, d := d, it := i, gamma := gamma, energy := energy }
 
 /-- `while_loop(continue_condition, cg_single_step, val)` with `continue_condition = info < -1` -/
-def staticLoop (c : Cfg K) (ip : V → V → K) (mat : V → V) (j : V) : Nat → SSt K V → SSt K V
+def staticLoop (c : Cfg K) (ip : V → V → K) (nrm : V → K) (mat : V → V) (j : V) : Nat → SSt K V → SSt K V
   | 0, v => v
-  | fuel + 1, v => if v.info < -1 then staticLoop c ip mat j fuel (staticStep c ip mat j v) else v
+  | fuel + 1, v => if v.info < -1 then staticLoop c ip nrm mat j fuel (staticStep c ip nrm mat j v) else v
 
 def staticInit (ip : V → V → K) (mat : V → V) (j : V) (x0 : Option V) : SSt K V :=
   let s := init ip mat j x0
@@ -224,8 +239,8 @@ def staticInit (ip : V → V → K) (mat : V → V) (j : V) (x0 : Option V) : SS
     gamma := s.gamma, energy := s.energy }
 
 /-- `_static_cg`; the loop needs at most `max maxiter 1` steps (`static_terminates`) -/
-def cgStatic (c : Cfg K) (ip : V → V → K) (mat : V → V) (j : V) (x0 : Option V) : SSt K V :=
-  staticLoop c ip mat j (maxiterEff c + 1) (staticInit ip mat j x0)
+def cgStatic (c : Cfg K) (ip : V → V → K) (nrm : V → K) (mat : V → V) (j : V) (x0 : Option V) : SSt K V :=
+  staticLoop c ip nrm mat j (maxiterEff c + 1) (staticInit ip mat j x0)
 
 end
 end NiftyVerif.CgRe
